@@ -21,6 +21,9 @@ def gen_case(rng):
     else:
         mg, xg = rng.choice([(1, 3), (2, 4)])
         case = {'spec': rulesets.gen_spec(rng, with_m=False, n_base=rng.randint(1, 3), max_len=3, min_groups=mg, max_groups=xg, max_per_group=3), 'hseed': rng.getrandbits(32)}
+    if case['spec'].get('omen') and rng.random() < 0.6:
+        # omen_keyspace.txt is informational (status report): rulesets of older trainers / hand-made ones carry numbers that are too small or too large
+        case['spec']['omen']['keyspace'] = [[l, max(0, k + rng.choice([-3, -1, 0, 1, 5, -k, k]))] for l, k in case['spec']['omen']['keyspace']]
     case['flags'] = {'skip_brute': rng.random() < 0.25, 'all_lower': rng.random() < 0.25}
     return case
 
